@@ -614,8 +614,11 @@ pub fn c04(tier: Tier) -> i32 {
     // tower falls behind; it is confirmed `later` blocks further on; `after` more blocks follow; the tower gets all of them in
     // one poll. While it works through the early ones the node, which is ahead, says "already in chain" to a re-submission:
     // the tracker stays, is recorded as confirmed when the tower gets to that block, and completes 100 blocks later.
-    for quiet in [4u32, 5, 6, 7] {
-        for later in [1u32, 2, 3] {
+    let (quiets, laters): (&[u32], &[u32]) = if tier == Tier::Quick { (&[3, 4, 5], &[2, 3]) } else { (&[3, 4, 5, 6, 7], &[1, 2, 3]) };
+    // (the first re-submission is due six blocks after the penalty was sent: with 3 or 4 quiet blocks it falls among the
+    // blocks the tower catches up with, before the one that confirms the penalty)
+    for quiet in quiets.iter().copied() {
+        for later in laters.iter().copied() {
             for after in [0u32, 2] {
                 for restart in [false, true] {
                     let mut sd = seed("S3");
@@ -719,7 +722,7 @@ pub fn c04(tier: Tier) -> i32 {
             if tier == Tier::Quick { dq } else { dt },
         ));
     }
-    run_models(&run, models, budget(tier, 45, 700));
+    run_models(&run, models, budget(tier, 55, 700));
     run.finish()
 }
 
